@@ -55,6 +55,7 @@ func c09(c *q.Ctx) {
 	}
 	// the declared reads are compared with the current versions once more under the key locks, at commit
 	commitVersionChecks(c)
+	scanComposition(c)
 	// K7 PreExec / verifyTxRWSets agree
 	pe := c.Fn("kernel/engines/xuperos::(*Chain).PreExec")
 	if pe != nil && vt != nil {
